@@ -84,7 +84,11 @@ impl SampleStreamTrack {
 
     /// Stop this track by marking it as ended
     pub fn stop(&self) {
+        #[cfg(rustrtc_verif)]
+        crate::verif_hooks::media::verif_yield(crate::verif_hooks::media::point::STOP_STORE_ENDED);
         self.ended.store(true, std::sync::atomic::Ordering::SeqCst);
+        #[cfg(rustrtc_verif)]
+        crate::verif_hooks::media::verif_yield(crate::verif_hooks::media::point::STOP_NOTIFY_WAITERS);
         self.notify.notify_waiters();
     }
 }
@@ -152,6 +156,8 @@ pub fn sample_track(
 
 impl Clone for SampleStreamSource {
     fn clone(&self) -> Self {
+        #[cfg(rustrtc_verif)]
+        crate::verif_hooks::media::verif_yield(crate::verif_hooks::media::point::CLONE_FETCH_ADD);
         self.active_senders
             .fetch_add(1, std::sync::atomic::Ordering::Relaxed);
         Self {
@@ -169,12 +175,16 @@ impl Clone for SampleStreamSource {
 
 impl SampleStreamSource {
     fn try_send_drop_oldest(&self, sample: MediaSample) -> MediaResult<()> {
+        #[cfg(rustrtc_verif)]
+        crate::verif_hooks::media::verif_yield(crate::verif_hooks::media::point::SRC_LOAD_CLOSED);
         if self.source_closed.load(Ordering::Acquire) {
             return Err(MediaError::Closed);
         }
 
         let sample = match self.queue.push(sample) {
             Ok(()) => {
+                #[cfg(rustrtc_verif)]
+                crate::verif_hooks::media::verif_yield(crate::verif_hooks::media::point::SRC_NOTIFY_ONE);
                 self.notify.notify_one();
                 return Ok(());
             }
@@ -182,6 +192,8 @@ impl SampleStreamSource {
         };
 
         // Queue full: try drop-oldest under a short critical section.
+        #[cfg(rustrtc_verif)]
+        crate::verif_hooks::media::verif_yield(crate::verif_hooks::media::point::SRC_TRYLOCK_POP);
         let _pop_guard = match self.pop_lock.try_lock() {
             Some(guard) => guard,
             None => return Ok(()),
@@ -189,6 +201,8 @@ impl SampleStreamSource {
 
         let _ = self.queue.pop();
         if self.queue.push(sample).is_ok() {
+            #[cfg(rustrtc_verif)]
+            crate::verif_hooks::media::verif_yield(crate::verif_hooks::media::point::SRC_NOTIFY_ONE);
             self.notify.notify_one();
         }
 
@@ -254,6 +268,8 @@ impl SampleStreamSource {
                 actual: sample.kind(),
             });
         }
+        #[cfg(rustrtc_verif)]
+        crate::verif_hooks::media::verif_yield(crate::verif_hooks::media::point::SRC_LOAD_CLOSED);
         if self.source_closed.load(Ordering::Acquire) {
             return Err(MediaError::Closed);
         }
@@ -261,6 +277,8 @@ impl SampleStreamSource {
         self.queue
             .push(sample)
             .map_err(|_| MediaError::WouldBlock)?;
+        #[cfg(rustrtc_verif)]
+        crate::verif_hooks::media::verif_yield(crate::verif_hooks::media::point::SRC_NOTIFY_ONE);
         self.notify.notify_one();
         Ok(())
     }
@@ -278,12 +296,18 @@ impl SampleStreamSource {
 
 impl Drop for SampleStreamSource {
     fn drop(&mut self) {
+        #[cfg(rustrtc_verif)]
+        crate::verif_hooks::media::verif_yield(crate::verif_hooks::media::point::DROP_FETCH_SUB);
         if self
             .active_senders
             .fetch_sub(1, std::sync::atomic::Ordering::AcqRel)
             == 1
         {
+            #[cfg(rustrtc_verif)]
+            crate::verif_hooks::media::verif_yield(crate::verif_hooks::media::point::DROP_STORE_CLOSED);
             self.source_closed.store(true, Ordering::Release);
+            #[cfg(rustrtc_verif)]
+            crate::verif_hooks::media::verif_yield(crate::verif_hooks::media::point::DROP_NOTIFY_WAITERS);
             self.notify.notify_waiters();
         }
     }
@@ -493,24 +517,38 @@ impl MediaStreamTrack for SampleStreamTrack {
 
     async fn recv(&self) -> MediaResult<MediaSample> {
         loop {
+            #[cfg(rustrtc_verif)]
+            crate::verif_hooks::media::verif_yield(crate::verif_hooks::media::point::RECV_LOAD_ENDED);
             if self.ended.load(Ordering::SeqCst) {
                 return Err(MediaError::EndOfStream);
             }
 
             {
+                #[cfg(rustrtc_verif)]
+                crate::verif_hooks::media::verif_yield(crate::verif_hooks::media::point::RECV_LOCK_POP);
                 let _pop_guard = self.pop_lock.lock();
                 if let Some(sample) = self.queue.pop() {
                     return Ok(sample);
                 }
 
+                #[cfg(rustrtc_verif)]
+                crate::verif_hooks::media::verif_yield(crate::verif_hooks::media::point::RECV_LOAD_CLOSED);
                 if self.source_closed.load(Ordering::Acquire) {
+                    #[cfg(rustrtc_verif)]
+                    crate::verif_hooks::media::verif_yield(crate::verif_hooks::media::point::RECV_STORE_ENDED);
                     self.ended.store(true, Ordering::SeqCst);
                     return Err(MediaError::EndOfStream);
                 }
             }
 
+            #[cfg(rustrtc_verif)]
+            crate::verif_hooks::media::verif_yield(crate::verif_hooks::media::point::RECV_AWAIT);
             self.notify.notified().await;
+            #[cfg(rustrtc_verif)]
+            crate::verif_hooks::media::verif_yield(crate::verif_hooks::media::point::RECV_LOAD_CLOSED2);
             if self.source_closed.load(Ordering::Acquire) && self.queue.is_empty() {
+                #[cfg(rustrtc_verif)]
+                crate::verif_hooks::media::verif_yield(crate::verif_hooks::media::point::RECV_STORE_ENDED2);
                 self.ended.store(true, Ordering::SeqCst);
                 return Err(MediaError::EndOfStream);
             }
@@ -844,4 +882,50 @@ mod tests {
         let event = feedback_rx.recv().await.unwrap();
         assert!(matches!(event, FeedbackEvent::RequestKeyFrame));
     }
+}
+
+#[cfg(rustrtc_verif)]
+impl SampleStreamTrack {
+    /// Verification hook: the track's sample queue.
+    pub fn verif_queue(&self) -> &SpscRing<MediaSample> {
+        &self.queue
+    }
+
+    /// Verification hook: is the consumer-side (`pop`) lock currently held?
+    pub fn verif_pop_locked(&self) -> bool {
+        self.pop_lock.is_locked()
+    }
+
+    /// Verification hook: `(source_closed, ended)`.
+    pub fn verif_flags(&self) -> (bool, bool) {
+        (
+            self.source_closed.load(Ordering::SeqCst),
+            self.ended.load(Ordering::SeqCst),
+        )
+    }
+}
+
+#[cfg(rustrtc_verif)]
+impl SampleStreamSource {
+    /// Verification hook: current `active_senders` count.
+    pub fn verif_active_senders(&self) -> usize {
+        self.active_senders.load(Ordering::SeqCst)
+    }
+}
+
+/// Verification hook: `sample_track` whose ring indices start at `start` (index wrap-around).
+#[cfg(rustrtc_verif)]
+pub fn verif_sample_track_with_start(
+    kind: MediaKind,
+    capacity: usize,
+    start: usize,
+) -> (SampleStreamSource, Arc<SampleStreamTrack>) {
+    let (mut source, track, _feedback_rx) = sample_track(kind, capacity);
+    let queue = Arc::new(SpscRing::verif_with_start(capacity, start));
+    source.queue = queue.clone();
+    let track = Arc::try_unwrap(track).ok().map(|mut t| {
+        t.queue = queue;
+        Arc::new(t)
+    });
+    (source, track.expect("fresh track is unique"))
 }
